@@ -15,7 +15,7 @@ From Utp Require Import Base.Prelude Wire.SeqNr Wire.SeqNr_Proofs Wire.Header Rt
   Conn.VSock_Lemmas Conn.VSock_LemmasStep Conn.VSock_LemmasReach Conn.VSock_LemmasTx
   Conn.VSock_LemmasIn Conn.VSock_LemmasFin Conn.VSock_LemmasTimers Conn.VSock_LemmasPipe Conn.C17_StepLemmas
   Conn.C05_StepLemmas Conn.C05_StepZw
-  Conn.C05_Pred Conn.C06_Pred Conn.C06_RecProofs Conn.C06_StepLemmas.
+  Conn.C05_Pred Conn.C06_Pred Conn.C06_RecProofs Conn.C06_StepLemmas Conn.C06_Step.
 
 Definition ign (r : recovery) : option Z :=
   match rv_phase r with IgnoringUntilRecoveryPoint x => Some x | _ => None end.
@@ -448,3 +448,137 @@ Proof.
 Qed.
 
 End WithCC.
+
+(* ================================================================== the poll, then every trace *)
+Section Trace.
+Context {CC : Type} (cci : cc_iface CC).
+Notation vsock := (vsock CC).
+
+Theorem poll_rp_exit : forall rp (s : vsock) sc s',
+  ti s -> v_state s = Established -> ign (v_recovery s) = Some rp ->
+  Exists (fun m => reaches_rp rp (m_hdr m) = true) (v_inbox s) ->
+  timer_expired (v_t_retransmit s) (v_env_now s) = false ->
+  poll cci (VSockRec.set_sends s sc) = (s', PollPending) ->
+  v_transport_pending s' = true \/ (v_state s' = Established -> ign (v_recovery s') = None).
+Proof.
+  intros rp s sc s' Hti Est Hig Hre Hne H. rewrite poll_unfold in H. apply poll_loop_start in H.
+  pose proof Hti as (T1 & T2 & T3).
+  pose proof (poll_loop_Sn cci rp (v_env_now s) (v_rto_retransmissions s) T2 64%nat (poll_start (poll_init (VSockRec.set_sends s sc))) s') as L.
+  refine (_ (L _ H)).
+  - intros [T|[_ Hn]]; [left; exact T | right; exact Hn].
+  - split; [split|].
+    + split; [split; [exact T1|split; [exact T2|exact T3]]|]. split; reflexivity.
+    + apply JA; [reflexivity|reflexivity|]. intro Hx.
+      change (timer_expired (v_t_retransmit s) (v_env_now s) = true) in Hx. congruence.
+    + apply (Sa_keep rp s); try reflexivity; try apply Z.le_refl.
+      split; [rewrite Est; cbn [rk]; lia|]. intros _. unfold PHI. rewrite Hig. split; [reflexivity | exact Hre].
+Qed.
+
+Definition PInv (s : vsock) (pending : option (list chdr)) : Prop :=
+  match pending with
+  | Some l => v_inbox_closed s = false /\ incl l (map (@m_hdr) (v_inbox s))
+  | None => True
+  end.
+
+Lemma vstep_inbox : forall (s : vsock) o,
+  match o with
+  | VoPoll _ => True
+  | VoDeliver m =>
+      if v_inbox_closed s then vstep_state cci s o = s
+      else v_inbox (vstep_state cci s o) = v_inbox s ++ [m] /\ v_inbox_closed (vstep_state cci s o) = false
+  | VoCloseInbox => True
+  | _ => v_inbox (vstep_state cci s o) = v_inbox s /\ v_inbox_closed (vstep_state cci s o) = v_inbox_closed s
+  end.
+Proof.
+  intros s o. unfold vstep_state. destruct o; try exact I; cbn [vstep].
+  3: { destruct (v_inbox_closed s) eqn:E; cbn [fst]; [reflexivity | split; [reflexivity | exact E]]. }
+  all: repeat break_match; cbn [fst]; split; reflexivity.
+Qed.
+
+Lemma existsb_reach : forall rp l (inbox : list msg),
+  existsb (reaches_rp rp) l = true -> incl l (map (@m_hdr) inbox) ->
+  Exists (fun m => reaches_rp rp (m_hdr m) = true) inbox.
+Proof.
+  intros rp l inbox He Hi. apply existsb_exists in He. destruct He as (h & Hh & Hr).
+  apply Hi in Hh. apply in_map_iff in Hh. destruct Hh as (m & <- & Hm).
+  apply Exists_exists. exists m. split; assumption.
+Qed.
+
+Lemma poll_env_closed : forall (s : vsock) sc s' r,
+  poll cci (VSockRec.set_sends s sc) = (s', r) ->
+  v_env_now s' = v_env_now s /\ v_inbox_closed s' = v_inbox_closed s.
+Proof.
+  intros s sc s' r E. rewrite poll_unfold in E.
+  pose proof (VSock_LemmasFin.poll_loop_frame0 cci 64 (poll_init (VSockRec.set_sends s sc))) as F.
+  rewrite E in F. cbn [fst] in F. destruct F as (_ & _ & _ & F4 & _ & F6 & _). split; [exact F4 | exact F6].
+Qed.
+
+Theorem rp_exit_poll : forall (s : vsock) sc s' l,
+  ti s -> poll cci (VSockRec.set_sends s sc) = (s', PollPending) ->
+  v_transport_pending s' = false -> incl l (map (@m_hdr) (v_inbox s)) ->
+  rp_exit_poll_ok l (fstep_of cci s (VoPoll sc)) = true.
+Proof.
+  intros s sc s' l Hti E T Hi. rewrite (fstep_of_poll cci s sc s' _ E). unfold rp_exit_poll_ok.
+  cbn [fs_pre fs_post fs_now]. cbn [fp_of_vsock f_recovery f_state f_t_retransmit f_segs f_snd_una].
+  destruct (rv_phase (v_recovery s)) as [rp|d|rc] eqn:Eph; try reflexivity.
+  destruct (v_state s) eqn:Est; try reflexivity. destruct (v_state s') eqn:Est'; try reflexivity.
+  match goal with |- (if ?c then _ else _) = true => destruct c eqn:G end; [|reflexivity].
+  apply andb_true_iff in G. destruct G as [G G4]. apply andb_true_iff in G. destruct G as [G G3].
+  apply andb_true_iff in G. destruct G as [G1 G2]. apply negb_true_iff in G3.
+  destruct (poll_env_closed _ _ _ _ E) as [Hen _]. rewrite Hen in G3.
+  destruct (poll_rp_exit rp s sc s' Hti Est) as [K|K]; auto.
+  - unfold ign. rewrite Eph. reflexivity.
+  - eapply existsb_reach; eauto.
+  - congruence.
+  - specialize (K Est'). unfold ign in K. destruct (rv_phase (v_recovery s')); try reflexivity. discriminate K.
+Qed.
+
+Theorem rp_exit_scan_ok : forall ops (s : vsock) pending,
+  ti s -> PInv s pending -> rp_exit_scan (ftrace cci s ops) pending = true.
+Proof.
+  induction ops as [|o rest IH]; intros s pending Hti Hp; [reflexivity|].
+  rewrite ftrace_cons'. cbn [rp_exit_scan]. rewrite fstep_of_event.
+  pose proof (ti_vstep cci s o Hti) as Hti'. pose proof (vstep_inbox s o) as Hin.
+  assert (Hnon : (forall sc, o <> VoPoll sc) -> forall pending',
+            PInv (vstep_state cci s o) pending' ->
+            rp_exit_scan (if poll_finished (vstep_out cci s o) then [] else ftrace cci (vstep_state cci s o) rest)
+              pending' = true).
+  { intros Hnp pending' Hp'. destruct (C06_Step.vstep_nonpoll_out cci s o Hnp) as [Hf _]. rewrite Hf.
+    apply IH; assumption. }
+  assert (Hsame : v_inbox (vstep_state cci s o) = v_inbox s /\
+                  v_inbox_closed (vstep_state cci s o) = v_inbox_closed s -> PInv (vstep_state cci s o) pending).
+  { intros [I1 I2]. unfold PInv in *. destruct pending; [|exact I]. rewrite I1, I2. exact Hp. }
+  destruct o as [t|m|sc|m| |buf| | |n| |]; cbn [fevent_of];
+    try (apply Hnon; [discriminate | apply Hsame; exact Hin]).
+  - (* poll *) clear Hnon Hsame Hin.
+    destruct (poll cci (VSockRec.set_sends s sc)) as [s' r] eqn:E.
+    destruct (vstep_poll cci s sc s' r E) as [V1 V2]. rewrite V1, V2 in *.
+    assert (Hr : fs_result (fstep_of cci s (VoPoll sc)) =
+                 FrPoll r (map fpacket_of (rev (v_out s'))) (rev (v_wakes s')) (v_arm_in s') /\
+                 fs_post (fstep_of cci s (VoPoll sc)) = fp_of_vsock cci s').
+    { rewrite (fstep_of_poll cci s sc s' r E). split; reflexivity. }
+    destruct Hr as [Hr1 Hr2]. rewrite Hr1, Hr2. cbn [poll_finished].
+    change (f_transport_pending (fp_of_vsock cci s')) with (v_transport_pending s').
+    destruct r; try (destruct pending; reflexivity).
+    destruct (poll_env_closed _ _ _ _ E) as [_ Hcl].
+    apply andb_true_intro. split.
+    + destruct pending as [l|]; [|reflexivity]. destruct (v_transport_pending s') eqn:T; [reflexivity|].
+      destruct Hp as [_ Hi]. eapply rp_exit_poll; eauto.
+    + apply IH; [exact Hti'|]. destruct (v_transport_pending s'); [exact I|].
+      destruct pending as [l|]; [|exact I]. destruct Hp as [Hc _]. split; [congruence | intros x []].
+  - (* deliver *) apply Hnon; [discriminate|]. unfold PInv in *. destruct pending as [l|]; [|exact I].
+    destruct Hp as [Hc Hi]. rewrite Hc in Hin. destruct Hin as [I1 I2]. split; [exact I2|].
+    rewrite I1, map_app. cbn [map]. apply incl_app; [apply incl_appl; exact Hi | apply incl_appr, incl_refl].
+  - (* close *) apply Hnon; [discriminate | exact I].
+Qed.
+
+Theorem c06_rp_exit_ok_trace : forall cfg mk c (s0 : vsock) ops,
+  vsock_new cci mk c = Some s0 -> c06_rp_exit_ok cfg (ftrace cci s0 ops) = true.
+Proof.
+  intros cfg mk c s0 ops H0. unfold c06_rp_exit_ok. apply rp_exit_scan_ok; [eapply ti_vsock_new; exact H0|].
+  unfold vsock_new in H0.
+  destruct (match (if vc_incoming c then None else _) with Some r => _ | None => _ end); [|discriminate].
+  inversion H0; subst. split; [reflexivity | intros x []].
+Qed.
+
+End Trace.
